@@ -497,7 +497,13 @@ impl Ctx {
     /// Run one case under panic capture. A library panic is reported as a
     /// violation of kind `panic`, a harness panic makes the run inconclusive.
     pub fn case<T>(&mut self, index: u64, witness: &[u8], f: impl FnOnce(&mut Ctx) -> T) -> Option<T> {
-        match guarded(|| f(self)) {
+        let t0 = watchdog::enter(index, witness);
+        let res = guarded(|| f(self));
+        let secs = watchdog::leave(t0);
+        if secs > 1.0 {
+            self.maxf("max_case_secs", secs);
+        }
+        match res {
             Caught::Ok(v) => Some(v),
             Caught::LibPanic(loc, msg) => {
                 self.violation("panic", format!("panic at {loc}: {msg}"), index, witness);
@@ -616,4 +622,82 @@ pub fn fb(x: f64) -> String {
 
 pub fn f32b(x: f32) -> String {
     format!("{x:?}")
+}
+
+
+/// Per-case watchdog inside the worker. The case in flight is published through atomics; a helper
+/// thread notices a case that has been running longer than the limit, leaves `<out>.hang` (index and
+/// witness of that case) and ends the process with exit code 5. The driver confirms the case alone in a
+/// fresh process before it calls it non-termination. Without this a library change that makes decoding
+/// spin would stall every shard until the coarse per-leg timeout.
+pub mod watchdog {
+    use std::sync::atomic::{AtomicPtr, AtomicU64, AtomicUsize, Ordering};
+    use std::time::Instant;
+
+    static START_NS: AtomicU64 = AtomicU64::new(0);
+    static INDEX: AtomicU64 = AtomicU64::new(0);
+    static WPTR: AtomicPtr<u8> = AtomicPtr::new(std::ptr::null_mut());
+    static WLEN: AtomicUsize = AtomicUsize::new(0);
+    static DEPTH: AtomicU64 = AtomicU64::new(0);
+
+    fn now_ns() -> u64 {
+        static T0: std::sync::OnceLock<Instant> = std::sync::OnceLock::new();
+        T0.get_or_init(Instant::now).elapsed().as_nanos() as u64 + 1
+    }
+
+    /// returns the start stamp of the outermost case (nested `case` calls keep the outer one)
+    pub fn enter(index: u64, witness: &[u8]) -> u64 {
+        if DEPTH.fetch_add(1, Ordering::Relaxed) == 0 {
+            INDEX.store(index, Ordering::Relaxed);
+            WLEN.store(witness.len().min(1 << 20), Ordering::Relaxed);
+            WPTR.store(witness.as_ptr().cast_mut(), Ordering::Relaxed);
+            let t = now_ns();
+            START_NS.store(t, Ordering::Release);
+            t
+        } else {
+            0
+        }
+    }
+
+    pub fn leave(t0: u64) -> f64 {
+        if DEPTH.fetch_sub(1, Ordering::Relaxed) == 1 {
+            START_NS.store(0, Ordering::Release);
+        }
+        if t0 == 0 {
+            0.0
+        } else {
+            (now_ns() - t0) as f64 / 1e9
+        }
+    }
+
+    /// `limit_secs` = 0 disables the watchdog (Miri: no helper thread in the interpreter)
+    pub fn start(limit_secs: f64, out: String) {
+        if limit_secs <= 0.0 || cfg!(miri) {
+            return;
+        }
+        let _ = now_ns();
+        std::thread::spawn(move || loop {
+            std::thread::sleep(std::time::Duration::from_millis(250));
+            let s = START_NS.load(Ordering::Acquire);
+            if s == 0 {
+                continue;
+            }
+            let running = (now_ns().saturating_sub(s)) as f64 / 1e9;
+            if running > limit_secs {
+                let (idx, len, ptr) = (INDEX.load(Ordering::Relaxed), WLEN.load(Ordering::Relaxed), WPTR.load(Ordering::Relaxed));
+                // the witness is borrowed by the stuck case for as long as it runs
+                let bytes: Vec<u8> = if ptr.is_null() { Vec::new() } else { unsafe { std::slice::from_raw_parts(ptr, len) }.to_vec() };
+                if START_NS.load(Ordering::Acquire) != s {
+                    continue; // the case ended while we were looking
+                }
+                let mut buf = format!("{idx} {}\n", bytes.len()).into_bytes();
+                buf.extend_from_slice(&bytes);
+                if !out.is_empty() {
+                    let _ = std::fs::write(format!("{out}.hang"), &buf);
+                }
+                eprintln!("WATCHDOG: case {idx} has been running for {running:.0}s (limit {limit_secs}s)");
+                std::process::exit(5);
+            }
+        });
+    }
 }
